@@ -222,9 +222,67 @@ def bracket(chk, m, S, flavour):
             chk.fail(R, "%s:free_region:args" % flavour, "free_region unmaps (%s, %s), expected (region->base, region->base_size)" % (a0, a1), common.loc(mu[0]))
 
 
+def map_size(chk, m, flavour):
+    """R-MAP-SIZE: on every path of alloc_region the length recorded for the mapping (region->base_size, what free_region
+    hands to munmap) is the very length the surviving mmap call was given; otherwise the tail of the mapping is leaked or
+    foreign memory is unmapped"""
+    F = common.sym(m, "alloc_region", required=False)
+    if F is None:
+        return 0
+    pf = ir.PathFinder(F)
+    reg = F.params[0]["id"]
+    # stores into *region: (field byte offset, instruction)
+    field_stores = []
+    for I in F.all_insts():
+        if I.op != "store" or I.ops[1][0] != "v":
+            continue
+        G = F.insts.get(I.ops[1][1])
+        if G is not None and G.op == "getelementptr" and F.strip_casts(G.ops[0]) == ["v", reg] and not G.d.get("vpart"):
+            field_stores.append((G.d.get("cpart", 0), I))
+        elif F.strip_casts(I.ops[1]) == ["v", reg]:
+            field_stores.append((0, I))
+    offs = sorted({o for o, _ in field_stores})
+    if len(offs) < 3:
+        raise AnalysisBroken("alloc_region: stores into the region descriptor not recognised (%s)" % offs)
+    base_off, size_off = offs[0], offs[2]          # { base, aligned, base_size, aligned_size }
+    n = 0
+    for lits, rv, st, trail in ir.enumerate_paths(F):
+        def val(o):
+            o = pf.resolve(o, st)
+            I = F.insts.get(o[1]) if o[0] == "v" else None
+            if I is not None and I.op == "select":
+                t, _ = pf.cond_truth(I.ops[0], st)
+                if t is True:
+                    return val(I.ops[1])
+                if t is False:
+                    return val(I.ops[2])
+            return o
+        bstore = [I for o, I in field_stores if o == base_off and I.block in trail]
+        sstore = [I for o, I in field_stores if o == size_off and I.block in trail]
+        if not bstore or not sstore:
+            continue
+        base = val(bstore[-1].ops[0])
+        size = val(sstore[-1].ops[0])
+        BI = F.insts.get(base[1]) if base[0] == "v" else None
+        if BI is None or not BI.is_call or BI.callee != "mmap":
+            continue                              # NULL (failure) or the malloc fallback: nothing is mapped
+        want = val(BI.ops[1])
+        inst = "%s:alloc_region:mmap@%d" % (flavour, BI.line)
+        if size[0] == "c" and int(size[1]) == 0:
+            continue                              # the `base ? base_size : 0` arm for a NULL base: nothing to unmap
+        if size == want:
+            chk.ok("R-MAP-SIZE", inst + "|" + ",".join(str(b) for b in trail[-4:]), sample={"mmap_line": BI.line, "length": ir.expr(F, want) if hasattr(ir, "expr") else str(want)})
+        else:
+            chk.fail("R-MAP-SIZE", inst, "alloc_region maps %s bytes (mmap at line %d) but records %s as the size of the mapping: free_region will unmap a different length" % (
+                ir.expr(F, want), BI.line, ir.expr(F, size)), "lib/alg-yescrypt-platform.c:%d" % BI.line)
+        n += 1
+    return n
+
+
 def run(chk, tier):
     chk.explanation = __doc__
     chk.rule("R-ALLOC-CHECKED", "allocator and wrapper results are tested before use / consumed; failure edges return failure codes")
+    chk.rule("R-MAP-SIZE", "the length recorded for a mapping is the length it was mapped with (what munmap later receives)")
     chk.rule("R-BRACKET", "init/free and alloc/free bracketing on every path")
     chk.rule("R-FAIL-IS-FAILURE", "C05 fail-closed rules and C09 dispatch wipes hold (imported)")
     for flavour in ("shared", "static"):
@@ -233,6 +291,9 @@ def run(chk, tier):
         api = m.reach([common.sym(m, n).name for n in common.ALL_API])
         n = alloc_checked(chk, m, S, flavour, api)
         bracket(chk, m, S, flavour)
+        nmap = map_size(chk, m, flavour)
+        if common.sym(m, "alloc_region", required=False) is not None and nmap < 2:
+            raise AnalysisBroken("R-MAP-SIZE examined only %d paths of alloc_region" % nmap)
         chk.note(flavour, {"allocator_call_sites": n})
         if n < 4:
             raise AnalysisBroken("only %d allocator call sites found (5 on the pinned tree)" % n)
